@@ -453,6 +453,21 @@ func main() {
 				addSticky(mk(rest, false), "reuse-reverse", fmt.Sprintf("reuse-%d", c), 1, nil)
 			}
 		}
+		// a member widens its subscription to a topic nobody else consumes, in a state where everybody owns something (the
+		// neighbourhood of the revert branch of balance(): reassignments with little to gain)
+		for c := 0; c < *n/6 && hangs == 0; c++ {
+			w := bg.WidenWorld(rand.New(rand.NewSource(r.Int63())))
+			for s := 0; s < 3; s++ {
+				if s > 0 {
+					w.Widen()
+				}
+				plan := addSticky(w.Input(false), "chain-widen", fmt.Sprintf("widen-%d", c), s, append([]string(nil), w.Log...))
+				if plan == nil {
+					break
+				}
+				w.Feedback(plan)
+			}
+		}
 		nchains := *n / 6
 		for c := 0; c < nchains; c++ {
 			kind := []string{"honest", "honest", "stale", "forged"}[c%4]
